@@ -93,7 +93,7 @@ SPECIAL_FUNCTIONS: dict[str, Callable] = {
     "hypot": np.hypot,
     "erf": special.erf,
     "re": lambda x: np.real(x),  # sympy's simplification can introduce these
-    "im": lambda x: np.imag(x),
+    "im": lambda x: np.imag(x + 0j),  # numba cannot allocate zeros for real views
 }
 
 
